@@ -145,7 +145,11 @@ def gene_lists(L: int, alphabet=GENES):
 def stack_alphabet(g, cap: int = 8) -> list[int]:
     """Genes that make the stack mapping's weighted type choice hit each of its stack types:
     choice_weighted reduces a gene modulo (number of types * 1e5 + 1)."""
-    n = min(cap, max(2, len(g.get_all_mentioned_symbols())))
+    try:
+        mentioned = len(g.get_all_mentioned_symbols())
+    except RecursionError:  # Grammar.collect_types does not terminate on a concrete class that reaches itself through a Union
+        mentioned = len(g.all_nodes) + 2
+    n = min(cap, max(2, mentioned))
     return [i * 100000 + i for i in range(n)]
 
 
@@ -450,7 +454,7 @@ def standard_units(tier: str, family=None, deciders=("maxdepth", "full", "pigrow
             us.append({"kind": "tree-create", "spec": spec, "decider": "pt", "depth_off": 0, "horizon": 40,
                        "max_execs": 400 if tier == "quick" else 5000})
     small = [s for s in fam if s["name"].split(":")[0] in
-             ("S1", "S2", "S3", "S5", "S6", "S7", "S8", "S9", "S10", "S11", "S12", "S13", "S14", "S15", "S16", "S17", "S18", "S19", "S20", "S21", "S22", "S23", "S24", "S26", "S27", "S28", "S29", "S30", "S31", "S32", "S33", "S34", "S35")]
+             ("S1", "S2", "S3", "S5", "S6", "S7", "S8", "S9", "S10", "S11", "S12", "S13", "S14", "S15", "S16", "S17", "S18", "S19", "S20", "S21", "S22", "S23", "S24", "S26", "S27", "S28", "S29", "S30", "S31", "S32", "S33", "S34", "S35", "S36", "S37")]
     small += [s for s in fam if s["name"].startswith(("F1:", "G1:")) and s["name"].count(",") == 0]
     if tier != "quick":
         # thorough: the two-abstract and nested families as well (the two-field F1/G2 grammars stay with tree creation)
